@@ -34,6 +34,8 @@ FLOORS["quick"].update({'arrived_between_pick_and_start': 800, 'mixed_type_class
 FLOORS["thorough"].update({'arrived_between_pick_and_start': 4000, 'mixed_type_class_id_cases': 500})
 FLOORS["quick"].update({'counter_polling_observer_cases': 280, 'tiny_weight_cases': 15})
 FLOORS["thorough"].update({'counter_polling_observer_cases': 1400, 'tiny_weight_cases': 75})
+FLOORS["quick"].update({'idle_reset_checks': 5000})
+FLOORS["thorough"].update({'idle_reset_checks': 25000})
 
 
 def plan(tier):
